@@ -56,6 +56,19 @@ void w2c2VerifPoint(int id, long a, long b) {
 int w2c2VerifSpuriousWakeup(void) { return spuriousMode && myTid >= 0 && (rnd() % 5) == 0; }
 #endif
 
+/* A SECOND, unrelated instance family with its own shared memory waits and notifies in the same process while the scenario runs (odd
+   seeds): memories are independent objects, nothing one family does may be visible in the other's history. */
+static fxInstance parent2; static fxInstance* child2[2]; static int noiseStop; static unsigned long noiseWaits, noiseNotifies, noiseBad;
+static void* noiseMain(void* p) {
+    int role = (int)(long)p; unsigned long long x = 88172645463325252ULL + (unsigned long long)role; unsigned a;
+    while (!__atomic_load_n(&noiseStop, __ATOMIC_SEQ_CST)) {
+        x ^= x << 13; x ^= x >> 7; x ^= x << 17; a = 4096u + (unsigned)(x % 4) * 8u;
+        if (role == 0) { U32 cur = fx_load32(child2[0], a); U32 r = fx_wait32_o0(child2[0], a, cur, (U64)(200000 + x % 800000)); if (r > 2) noiseBad++; noiseWaits++; }
+        else { fx_add32(child2[1], a, 1); if (fx_notify_o0(child2[1], a, 1 + (unsigned)(x % 2)) > 2) noiseBad++; noiseNotifies++; if (x % 3 == 0) sched_yield(); }
+    }
+    return NULL;
+}
+
 static long long nowNs(void) { struct timespec ts; clock_gettime(CLOCK_MONOTONIC, &ts); return (long long)ts.tv_sec * 1000000000LL + ts.tv_nsec; }
 
 static U32 doWait(int t, unsigned addr, unsigned long long exp, long long timeout, int is64, int off) {
@@ -154,7 +167,7 @@ static int futexNodes(wasmMemory* m, int* emptyBuckets, int waitingOnly) {
 int main(int argc, char** argv) {
     unsigned long long seed = argc > 1 ? strtoull(argv[1], NULL, 0) : 1; int scenario = argc > 2 ? atoi(argv[2]) : 0;
     int W = argc > 3 ? atoi(argv[3]) : 4, N = argc > 4 ? atoi(argv[4]) : 2, naddr = argc > 5 ? atoi(argv[5]) : 2, t, T, stable = 0, lastParked = -1, quiescentWithParked = 0, hang = 0, i;
-    pthread_t th[MAXT]; TArg args[MAXT]; unsigned addrs[8]; wasmMemory* mem; long long start; int empty = 0;
+    pthread_t th[MAXT], noise[2]; TArg args[MAXT]; unsigned addrs[8]; wasmMemory* mem; long long start; int empty = 0;
     delayMode = argc > 6 ? atoi(argv[6]) & 1 : 1; spuriousMode = argc > 6 ? (atoi(argv[6]) >> 1) & 1 : 1;
     if (W + N > MAXT - 1) return 2; if (naddr > 8) naddr = 8;
     T = W + N;
@@ -165,6 +178,8 @@ int main(int argc, char** argv) {
     for (i = 0; i < naddr; i++) addrs[i] = 4096u + (unsigned)((i % 2) ? 1024u * 4u * (unsigned)i : 8u * (unsigned)i) + ((seed >> 3) % 4) * 2048u * 0u;
     /* depending on the seed some of the addresses lie in the second 64 KiB page (the memory has two), next to 2^16 and far into it */
     if (seed % 3 != 0) for (i = (int)(seed % 2); i < naddr; i += 2) addrs[i] = 65536u + (unsigned)(i * 8) + (unsigned)((seed >> 2) % 8) * 4096u;
+    if (seed % 2) { fxInstantiate(&parent2, NULL); child2[0] = (fxInstance*)parent2.common.newChild((wasmModuleInstance*)&parent2); child2[1] = (fxInstance*)parent2.common.newChild((wasmModuleInstance*)&parent2);
+        pthread_create(&noise[0], NULL, noiseMain, (void*)0L); pthread_create(&noise[1], NULL, noiseMain, (void*)1L); }
     threadsLeft = T;
     for (t = 0; t < T; t++) { args[t].t = t; args[t].role = t < W ? 0 : 1; args[t].scenario = scenario; args[t].naddr = naddr; args[t].seed = seed; args[t].addrs = addrs;
         args[t].target = 3 + (unsigned)(seed % 6); args[t].iters = 12 + (int)(seed % 20); pthread_create(&th[t], NULL, threadMain, &args[t]); }
@@ -191,6 +206,8 @@ int main(int argc, char** argv) {
     }
     if (hang) { printf("HANG threadsLeft=%d\n", threadsLeft); fflush(stdout); _exit(3); }
     for (t = 0; t < T; t++) pthread_join(th[t], NULL);
+    if (seed % 2) { __atomic_store_n(&noiseStop, 1, __ATOMIC_SEQ_CST); pthread_join(noise[0], NULL); pthread_join(noise[1], NULL);
+        printf("NOISE waits=%lu notifies=%lu bad=%lu\n", noiseWaits, noiseNotifies, noiseBad); }
     { int nodes = futexNodes(mem, &empty, 0); printf("END nodes=%d buckets_empty=%d quiescent_parked=%d\n", nodes, empty, quiescentWithParked); }
     for (t = 0; t <= T; t++) { int k; for (k = 0; k < evn[t]; k++) { Ev* e = &evs[t][k]; printf("E %llu %d %d %u %llu %llu\n", e->seq, e->tid, e->kind, e->addr, e->a, e->b); }
         if (evn[t] >= MAXEV) printf("OVERFLOW tid=%d\n", t); }
